@@ -79,6 +79,12 @@ def Scalar.kind : Scalar → Nat
 def ActorMono (ρ : Ren) (ops : List Op) : Prop :=
   ∀ a ∈ actorsOf ops, ∀ b ∈ actorsOf ops, bytesLt (ρ.actor a) (ρ.actor b) = bytesLt a b
 
+/-- executable form of `ActorMono` for long histories: each distinct actor and its image are
+    computed once (`actorMonoB_sound` in Proofs/Anon.lean) -/
+def actorMonoB (ρ : Ren) (ops : List Op) : Bool :=
+  let as := (actorsOf ops).eraseDups.map (fun a => (a, ρ.actor a))
+  as.all (fun p => as.all (fun q => bytesLt p.2 q.2 == bytesLt p.1 q.1))
+
 /-- the key map is injective on the keys that occur in each object -/
 def KeyInj (ρ : Ren) (ops : List Op) : Prop :=
   ∀ o ∈ ops, ∀ p ∈ ops, o.obj = p.obj → ∀ k l, o.key = .map k → p.key = .map l → ρ.key k = ρ.key l → k = l
